@@ -246,6 +246,11 @@ def _getattr(it, ctx, a, k):
 def _hasattr(it, ctx, a, k):
     if not isinstance(a[1], VStr):
         raise Undecided("hasattr with symbolic name")
+    if a[1].s in ("__len__", "__iter__", "__getitem__"):
+        if isinstance(a[0], (VList, VTuple, VDict, VStr)) or getattr(a[0], "kind", "") == "tensor":
+            return TRUE
+        if not isinstance(a[0], VObj):
+            return FALSE
     try:
         a[0].py_getattr(it, ctx, a[1].s)
         return TRUE
